@@ -317,7 +317,7 @@ func newCrdtWorld(rg *rand.Rand, offsets []int64) *crdtWorld {
 }
 
 var crdtFilters = []string{"mp/a", "mp/a/b", "mp/a/+", "mp/#", "mp/b"}
-var crdtTopics = []string{"mp/t", "mp/t/u", "mp/u", "mp/t/"}
+var crdtTopics = []string{"mp/t", "mp/t/u", "mp/u", "mp/t/", "mp/$sys/t"}
 
 // collect moves node i's freshly queued broadcasts to the pending lists.
 func (w *crdtWorld) collect(i int) [][]byte {
@@ -432,7 +432,7 @@ func c08Scenario(c *fw.Ctx, s int) {
 	w := newCrdtWorld(rg, []int64{10000000000, -10000000000, 0})
 	steps := 20 + rg.Intn(41)
 	for i := 0; i < steps; i++ {
-		w.step(false)
+		w.step(s%2 == 1) // odd scenarios: with bulk removals (DeleteSession, DeletePeer of this or another node)
 		if rg.Intn(2) == 0 {
 			w.gossip(false)
 		}
